@@ -1,6 +1,7 @@
 package main
 
 import (
+	"os/exec"
 	"bufio"
 	"encoding/json"
 	"fmt"
@@ -36,6 +37,7 @@ type KnownFinding struct {
 	What       string `json:"what"`
 	Input      string `json:"input,omitempty"`
 	Commit     string `json:"commit,omitempty"`
+	ReplayCmd  string `json:"replay_cmd,omitempty"` // a test against the real code that fails while the defect is present
 }
 
 func loadKnownFindings(path string) []KnownFinding {
@@ -229,6 +231,25 @@ func cmdCheck(args []string) int {
 			rep := map[string]any{"property": id, "obligation": full, "kind": o.Kind, "where": fmt.Sprintf("%s:%d", o.Pos.Filename, o.Pos.Line),
 				"what": o.Desc, "status": o.Status, "solver_output": o.Output}
 			extra := " no-failing-input-found"
+			// an obligation whose earlier failure was traced to a concrete history has a recorded replay against the
+			// real code (replays/): if the defect is back, the replay fails again - a failing input, not just a failed proof
+			for i := range known {
+				if known[i].Property == id && known[i].Obligation == full && known[i].ReplayCmd != "" {
+					cmd := exec.Command("bash", "-c", known[i].ReplayCmd)
+					cmd.Dir = verifDir
+					cmd.Env = append(os.Environ(), "VERIF_REPO="+repo)
+					outb, err := cmd.CombinedOutput()
+					tail := string(outb)
+					if len(tail) > 4000 {
+						tail = tail[len(tail)-4000:]
+					}
+					rep["replay"] = map[string]any{"cmd": known[i].ReplayCmd, "reproduced": err != nil, "output": tail}
+					if err != nil {
+						extra = ""
+					}
+					break
+				}
+			}
 			if o.Model != "" {
 				rep["model"] = o.Model
 				rp := eng.tryReplay(id, o, replayDir)
